@@ -50,12 +50,13 @@ Theorem C04_decoded_files_are_the_stored_ones : forall (is_fd v init : bool) (fs
 Proof. exact inject_report_matches_image. Qed.
 Print Assumptions C04_decoded_files_are_the_stored_ones.
 
-(* kind and flag follow the documented extension rules (README table, written in Spec) *)
-Theorem C04_kinds_as_documented : forall (name ext ext_opt : list Z),
-  existsb (Z.eqb 46) ext = false ->
+(* kind and flag follow the documented extension rules (README table, written in Spec), for
+   every source argument *)
+Theorem C04_kinds_as_documented : forall src : list Z,
+  let '(name, ext, ext_opt, clean) := split_source src in
   let '(forced, kind, dtype) := processor_of name ext ext_opt in
   let '(ext_doc, kind_doc, flag_doc) := doc_disk_kind name ext ext_opt in
   kind = kind_doc /\ data_to_byte dtype = flag_doc /\ (dtype = 0 \/ dtype = 1) /\ 0 <= kind < 4 /\
   match forced with Some x => x | None => ext end = ext_doc.
-Proof. exact processors_match_documentation. Qed.
+Proof. exact split_source_processors_match. Qed.
 Print Assumptions C04_kinds_as_documented.
